@@ -264,7 +264,7 @@ func Generate(family string, seed int64, idx int) Scenario {
 		p.MaxAppend = pick(r, 1, 4, 64)
 		sc.Clients = 0
 		sc.Script = "snapterm"
-	case "dupae", "monofail", "snaptrunc", "snapleader":
+	case "dupae", "monofail", "snaptrunc", "snapleader", "snapfallback", "restorefail", "snapvote", "restoreedge":
 		p := &sc.P
 		p.Voters, p.NonVoters, p.Spares = 3, 0, 0
 		p.Protocol = 0
@@ -287,6 +287,26 @@ func Generate(family string, seed int64, idx int) Scenario {
 			p.Trailing = pick[uint64](r, 8, 10, 16)
 			p.PersistDelayMs = p.ElectionMs * pick(r, 5, 7)
 			p.Flavor = Flavor{}
+		case "snapvote":
+			p.Voters = pick(r, 3, 3, 5)
+			p.Trailing = 0
+			p.Flavor = Flavor{}
+			if r.Intn(3) == 0 {
+				p.Flavor = Flavor{Monotonic: true}
+			}
+		case "restoreedge":
+			p.Trailing = 10240
+			p.MaxAppend = 64
+			p.Flavor = Flavor{}
+		case "restorefail":
+			p.Voters = pick(r, 3, 3, 5)
+			p.Trailing = 0
+			p.MaxAppend = pick(r, 1, 4, 64)
+			p.Flavor = Flavor{}
+		case "snapfallback":
+			p.Voters, p.Spares = pick(r, 1, 1, 3), 1
+			p.Trailing = 10240
+			p.FSMKind = r.Intn(4)
 		case "snapleader":
 			p.Voters = 5
 			p.Trailing = 0
@@ -295,7 +315,7 @@ func Generate(family string, seed int64, idx int) Scenario {
 			p.Flavor = Flavor{}
 		}
 		p.PreVoteOff = make([]bool, p.N())
-		if r.Intn(3) == 0 {
+		if r.Intn(3) == 0 || family == "snapvote" {
 			for i := range p.PreVoteOff {
 				p.PreVoteOff[i] = true
 			}
